@@ -229,9 +229,12 @@ func (s *hostileState) step(b []byte) (verdict int, size int, why string) {
 // hostileSetup describes the client's outbound transfers when the hostile
 // bytes arrive.
 type hostileSetup struct {
-	N1, N2pub, N2rel int
-	Sub              int // filters of one waiting Subscribe (0 = none)
-	ReadBuf          int
+	// Refused1/2: publishes refused by a failing Persistence.Save after the
+	// pending ones: they are not in flight, whatever the broker says
+	Refused1, Refused2 int
+	N1, N2pub, N2rel   int
+	Sub                int // filters of one waiting Subscribe (0 = none)
+	ReadBuf            int
 }
 
 type fatalTB interface {
@@ -346,6 +349,19 @@ func runHostile(t fatalTB, connack []byte, stream []byte, hs hostileSetup) (labe
 		}
 		exch = append(exch, ch)
 		st.q2pub = append(st.q2pub, 0xc000|uint16(i))
+	}
+	for i := 0; i < hs.Refused1+hs.Refused2; i++ {
+		w.Store.FailNext('S')
+		var err error
+		if i < hs.Refused1 {
+			_, err = w.Client.PublishAtLeastOnce([]byte{0xee}, "refused/1")
+		} else {
+			_, err = w.Client.PublishExactlyOnce([]byte{0xee}, "refused/2")
+		}
+		w.Store.ClearFaults()
+		if err == nil {
+			fail("a publish whose Save failed was accepted")
+		}
 	}
 	// PUBREC for the first N2rel
 	for i := 0; i < hs.N2rel; i++ {
@@ -739,6 +755,10 @@ func TestC13Hostile(t *testing.T) {
 			N2rel:   rapid.IntRange(0, 2).Draw(rt, "pending2rel"),
 			Sub:     rapid.SampledFrom([]int{0, 0, 1, 3}).Draw(rt, "waitingSubscribe"),
 			ReadBuf: rapid.SampledFrom([]int{0, 0, 64, 256}).Draw(rt, "readBuf"),
+		}
+		if rapid.IntRange(0, 3).Draw(rt, "refusedPublishes") == 0 {
+			hs.Refused1 = rapid.IntRange(0, 2).Draw(rt, "refused1")
+			hs.Refused2 = rapid.IntRange(0, 2).Draw(rt, "refused2")
 		}
 		var connack, stream []byte
 		if rapid.IntRange(0, 5).Draw(rt, "hostileHandshake") == 0 {
